@@ -186,6 +186,30 @@ def dump_graph(ctx, cfg, tag):
     return init, g, r
 
 
+def nearest_new(g, covered, start, depth):
+    """shortest edge sequence (at most `depth` long) from `start` to a state with an edge not yet taken"""
+    prev = {start: None}
+    frontier = [start]
+    for _ in range(depth):
+        nxt = []
+        for u in frontier:
+            for k, (v, _) in enumerate(g.get(u, ())):
+                if v in prev:
+                    continue
+                prev[v] = (u, k)
+                if any((v, j) not in covered for j in range(len(g.get(v, ())))):
+                    hop = []
+                    x = v
+                    while prev[x] is not None:
+                        hop.append(prev[x])
+                        x = prev[x][0]
+                    hop.reverse()
+                    return hop
+                nxt.append(v)
+        frontier = nxt
+    return None
+
+
 def edge_cover(init, g, rng, maxlen=400):
     """paths from the initial state that together take every edge of the graph at least once: shortest path (BFS tree)
     to an edge not yet taken, then onward along edges not yet taken for as long as there are any"""
@@ -215,7 +239,13 @@ def edge_cover(init, g, rng, maxlen=400):
             while len(path) < maxlen:
                 outs = [k for k in range(len(g.get(cur, ()))) if (cur, k) not in covered]
                 if not outs:
-                    break
+                    # nothing new here: walk on to the nearest state (a few steps away) that still has a new edge
+                    hop = nearest_new(g, covered, cur, 8)
+                    if not hop:
+                        break
+                    path.extend(hop)
+                    cur = g[hop[-1][0]][hop[-1][1]][0]
+                    continue
                 k = rng.choice(outs)
                 covered.add((cur, k))
                 path.append((cur, k))
